@@ -487,10 +487,31 @@ def slice_(base, lo, hi, step=NONE):
     if base[0] == 'lin' and (base[1] == 0 or any(not is_scalar(t) for t, c in base[2])):
         # (sum c_i x_i + k)[a:b:s] = sum c_i x_i[a:b:s] + k   (numbers are broadcast, not sliced)
         return lin(base[1], [(t if is_scalar(t) else slice_(t, lo, hi, step), c) for t, c in base[2]])
+    if base[0] == 'cmp0' and not is_scalar(base[2]):
+        return cmp_(base[1], slice_(base[2], lo, hi, step), ('const', 0))      # a slice of an element-wise comparison compares the slice
+    if base[0] == 'binv':
+        return binv(slice_(base[1], lo, hi, step))
+    if base[0] == 'call' and base[1] == 'diff' and len(base[2]) == 1 and not base[3] and step == NONE and \
+            (lo == NONE or _nonneg_index(lo)) and (hi == NONE or _nonneg_index(hi)):
+        # steps a .. b-1 of x are the steps of the samples a .. b:  diff(x)[a:b] == diff(x[a:b+1])
+        return ('call', 'diff', (slice_(base[2][0], lo, hi if hi == NONE else add(hi, ('const', 1))),), ())
     if base[0] in ('tuple', 'list') and all(x == NONE or (isconst(x) and isinstance(x[1], int)) for x in (lo, hi, step)):
         s = slice(*(None if x == NONE else x[1] for x in (lo, hi, step)))
         return (base[0], base[1][s])
     return ('slice', base, lo, hi, step)
+
+
+def _nonneg_index(t):
+    """an index counted from the front: a non-negative constant, a cyclepoint sample (element of a sample_ column / index array) or a sum of those"""
+    if _nonneg_const(t):
+        return True
+    if t[0] == 'idx' and is_intarr(t[1]):
+        return True
+    if t[0] == 'lv':
+        return True
+    if t[0] == 'lin' and t[1] >= 0:
+        return all(c > 0 and _nonneg_index(x) for x, c in t[2])
+    return False
 
 
 FLIP = {'Lt': 'Gt', 'LtE': 'GtE'}
